@@ -86,10 +86,28 @@ def mk_UNKNOWN(label):
                        host_keys=_hk(['ssh-ed25519']))
 
 
+def mk_OLDSSH(label):
+    # same product as the other OpenSSH archetypes at a much older version: what is "available" differs
+    return peer.Server(label=label, kex=['diffie-hellman-group14-sha1'], key=['ssh-rsa'], enc=['aes256-ctr'], mac=['hmac-sha2-256'],
+                       host_keys=_hk(['ssh-rsa'], rsa_bits=4096), banner=b'SSH-2.0-OpenSSH_6.4')
+
+
+def mk_NEWSSH(label):
+    return peer.Server(label=label, kex=['diffie-hellman-group14-sha1'], key=['ssh-rsa'], enc=['aes256-ctr'], mac=['hmac-sha2-256'],
+                       host_keys=_hk(['ssh-rsa'], rsa_bits=4096), banner=b'SSH-2.0-OpenSSH_10.0')
+
+
+def mk_GEXREFUSED(label):
+    # offers group exchange but refuses every request: no size can be measured for it
+    return peer.Server(label=label, kex=['diffie-hellman-group-exchange-sha256', 'diffie-hellman-group-exchange-sha1'],
+                       gex=peer.GexPolicy([], peer.STRICT), host_keys=_hk(['ssh-ed25519']), banner=b'SSH-2.0-dropbear_2022.83')
+
+
 HEALTHY = {
     'TERR': mk_TERR, 'MARK': mk_MARK, 'RSA1024': mk_RSA1024, 'RSA2048': mk_RSA2048, 'RSA4096': mk_RSA4096,
     'CERTSMALLCA': mk_CERTSMALLCA, 'CERTBIGCA': mk_CERTBIGCA, 'GEX1024': mk_GEX1024, 'GEX4096': mk_GEX4096,
     'GEXFALLBACK': mk_GEXFALLBACK, 'GEX2048OPENSSH': mk_GEX2048OPENSSH, 'SSH1': mk_SSH1, 'CLEAN': mk_CLEAN, 'UNKNOWN': mk_UNKNOWN,
+    'OLDSSH': mk_OLDSSH, 'NEWSSH': mk_NEWSSH, 'GEXREFUSED': mk_GEXREFUSED,
 }
 
 
